@@ -156,6 +156,150 @@ func runC14(c *Ctx) {
 		c.R.Check(bad == "", "R14.15", "a lock that a function takes is released on every way out of it", scPkg, fmt.Sprintf("%d acquisitions: each is followed by its release on every path to a return, or the release is deferred", nA),
 			bad+": the call returns with the lock held - the next AddValue waits for ever, and once a writer waits every later MultipleMatch/NearestMatch blocks behind it")
 	}
+	// R14.16: a lock that is held while caller-supplied code runs (a call of a function value: the normalisers) is released
+	// by a deferred call: an explicit Unlock behind the call is skipped when that code panics, and a caller that recovers has a
+	// classifier that blocks every other goroutine for ever.
+	{
+		dyn := map[*ssa.Function]int{}
+		var hasDyn func(f *ssa.Function, d int) bool
+		hasDyn = func(f *ssa.Function, d int) bool {
+			if f == nil || len(f.Blocks) == 0 || d > 4 {
+				return false
+			}
+			if v, ok := dyn[f]; ok {
+				return v == 1
+			}
+			dyn[f] = 0
+			for _, call := range core.CallsIn(f) {
+				cc := call.Common()
+				if cc.IsInvoke() {
+					continue
+				}
+				if _, isB := cc.Value.(*ssa.Builtin); isB {
+					continue
+				}
+				if g := cc.StaticCallee(); g != nil {
+					if core.InRepo(g) && hasDyn(g, d+1) {
+						dyn[f] = 1
+						return true
+					}
+					continue
+				}
+				if _, isMC := cc.Value.(*ssa.MakeClosure); isMC {
+					continue
+				}
+				dyn[f] = 1
+				return true
+			}
+			return false
+		}
+		nA, bad := 0, ""
+		for _, f := range append(append([]*ssa.Function{}, fns...), pkgFuncs(p, core.RootMod)...) {
+			deferred := map[string]bool{}
+			for _, b := range f.Blocks {
+				for _, in := range b.Instrs {
+					if d, ok := in.(*ssa.Defer); ok {
+						if op, k := eng.MutexOp(f, &d.Call); op == "Unlock" || op == "RUnlock" {
+							deferred[op+" "+k] = true
+						}
+					}
+				}
+			}
+			for _, b := range f.Blocks {
+				for i, in := range b.Instrs {
+					call, ok := in.(*ssa.Call)
+					if !ok {
+						continue
+					}
+					op, k := eng.MutexOp(f, &call.Call)
+					if op != "Lock" && op != "RLock" {
+						continue
+					}
+					rel := "Unlock"
+					if op == "RLock" {
+						rel = "RUnlock"
+					}
+					if deferred[rel+" "+k] {
+						continue
+					}
+					nA++
+					seen := map[*ssa.BasicBlock]bool{}
+					var scan func(bb *ssa.BasicBlock, from int)
+					scan = func(bb *ssa.BasicBlock, from int) {
+						for _, x := range bb.Instrs[from:] {
+							if c2, isCall := x.(*ssa.Call); isCall {
+								if o2, k2 := eng.MutexOp(f, &c2.Call); o2 == rel && k2 == k {
+									return
+								}
+								risky := false
+								if g := c2.Call.StaticCallee(); g != nil {
+									risky = core.InRepo(g) && hasDyn(g, 0)
+								} else if _, isB := c2.Call.Value.(*ssa.Builtin); !isB && !c2.Call.IsInvoke() {
+									if _, isMC := c2.Call.Value.(*ssa.MakeClosure); !isMC {
+										risky = true
+									}
+								}
+								if risky && bad == "" {
+									bad = core.ShortFn(f) + ": " + k + " is taken at " + p.Pos(call.Pos()) + " and still held, without a deferred release, at the call at " + p.Pos(c2.Pos()) + " that runs a function value"
+								}
+							}
+						}
+						for _, sc := range bb.Succs {
+							if !seen[sc] {
+								seen[sc] = true
+								scan(sc, 0)
+							}
+						}
+					}
+					scan(b, i+1)
+				}
+			}
+		}
+		c.R.Check(bad == "", "R14.16", "a lock held while caller-supplied code runs is released by a deferred call", scPkg, fmt.Sprintf("%d acquisitions with an explicit release: none spans a call of a function value", nA),
+			bad+": when that function panics the explicit release is skipped - a caller that recovers is left with a classifier whose every other call blocks")
+	}
+	// R14.17: nothing is initialised on first use without synchronisation: outside package initialisation no function of the
+	// two packages assigns a package-level variable, unless it holds a mutex there (or runs under sync.Once). Two first calls
+	// from different goroutines - the normalisers run inside every MultipleMatch/NearestMatch - race on the variable.
+	{
+		nS, bad := 0, ""
+		for _, f := range append(append([]*ssa.Function{}, fns...), pkgFuncs(p, core.RootMod)...) {
+			if f.Name() == "init" || strings.HasPrefix(f.Name(), "init#") || f.Synthetic != "" {
+				continue
+			}
+			if f.Parent() != nil && (f.Parent().Name() == "init" || strings.HasPrefix(f.Parent().Name(), "init#")) {
+				continue
+			}
+			lf := flows[f]
+			if lf == nil {
+				lf = eng.NewLockFlow(f)
+			}
+			for _, b := range f.Blocks {
+				for _, in := range b.Instrs {
+					st, ok := in.(*ssa.Store)
+					if !ok {
+						continue
+					}
+					g, isG := st.Addr.(*ssa.Global)
+					if !isG || g.Pkg == nil || !(g.Pkg.Pkg.Path() == scPkg || g.Pkg.Pkg.Path() == core.RootMod) {
+						continue
+					}
+					nS++
+					if len(lf.Before[in]) > 0 {
+						continue // under a lock
+					}
+					if onceOnly(f) {
+						continue
+					}
+					if bad == "" {
+						bad = core.ShortFn(f) + " assigns " + g.Name() + " at " + p.Pos(st.Pos())
+					}
+				}
+			}
+		}
+		c.R.Check(bad == "", "R14.17", "no package-level variable is assigned outside initialisation without a lock", scPkg, fmt.Sprintf("%d assignments of package-level variables outside init functions, each under a lock or sync.Once", nS),
+			bad+" without holding a lock: a value computed on first use and kept in a package-level variable is written by the first calls of several goroutines at once - a data race on state every classifier shares")
+	}
 	// R14.8: no mutex is acquired again while it is already held by the same call chain. sync.RWMutex is not reentrant: a
 	// second RLock blocks behind a writer that is waiting for the first one to be released, and that writer never gets
 	// the lock - both calls hang.
@@ -1480,4 +1624,29 @@ func freshConstructor(g *ssa.Function, typeName string) bool {
 		}
 	}
 	return n > 0
+}
+
+// onceOnly: f is a function literal that is only ever handed to (*sync.Once).Do.
+func onceOnly(f *ssa.Function) bool {
+	if f.Parent() == nil {
+		return false
+	}
+	used := false
+	for _, b := range f.Parent().Blocks {
+		for _, in := range b.Instrs {
+			call, ok := in.(ssa.CallInstruction)
+			if !ok || core.StaticCalleeName(call.Common()) != "(*sync.Once).Do" {
+				continue
+			}
+			for _, a := range call.Common().Args {
+				if mc, isMC := a.(*ssa.MakeClosure); isMC && mc.Fn == ssa.Value(f) {
+					used = true
+				}
+				if fv, isF := a.(*ssa.Function); isF && fv == f {
+					used = true
+				}
+			}
+		}
+	}
+	return used
 }
